@@ -60,7 +60,7 @@ def evaluate(ctx, cases):
     out = []
     for c in cases:
         key = hash(repr({k: v for k, v in c.items() if k != 'family'}))
-        x = proto.hex2arr(c['sig']); fs = c['fs']; fr = tuple(c['f_range'])
+        x = proto.hex2arr(c['sig']); fs = c['fs']; fr = implutil.frange(c)
         f = 2.0 ** c['k']
         if c.get('dtype'):
             m = float(np.max(np.abs(x))) or 1.0
